@@ -206,6 +206,79 @@ let op_rrset (ty : int) (msg : byte list) : string =
   pres r (fun rs -> Printf.sprintf "RS(%s,%d,%s,[%s])" (hex rs.rs_name) (ni rs.rs_class) (nstr rs.rs_ttl)
              (String.concat "," (List.map prdata rs.rs_data)))
 
+(* ---- name text ops ---- *)
+let valid_utf8 (l : byte list) : bool =
+  let a = Array.of_list (List.map int_of_byte l) in
+  let n = Array.length a in
+  let rec go i =
+    if i >= n then true else
+    let b = a.(i) in
+    let cont k = i + k < n + 0 && (let ok = ref true in for j = 1 to k do if i + j >= n || a.(i + j) land 0xC0 <> 0x80 then ok := false done; !ok) in
+    if b < 0x80 then go (i + 1)
+    else if b >= 0xC2 && b <= 0xDF then (cont 1 && go (i + 2))
+    else if b >= 0xE0 && b <= 0xEF then
+      (cont 2 && (b <> 0xE0 || a.(i + 1) >= 0xA0) && (b <> 0xED || a.(i + 1) <= 0x9F) && go (i + 3))
+    else if b >= 0xF0 && b <= 0xF4 then
+      (cont 3 && (b <> 0xF0 || a.(i + 1) >= 0x90) && (b <> 0xF4 || a.(i + 1) <= 0x8F) && go (i + 4))
+    else false in
+  go 0
+
+let ptext r = (abn r; pres r hex)
+let op_text (s : byte list) : string =
+  if not (valid_utf8 s) then "nonutf8" else
+  let h = ptext (name_from_str Heap s) and i = ptext (name_from_str Inline s) in
+  Printf.sprintf "H=%s I=%s TH=%s TI=%s" h i h i
+
+let pcmp (c : comparison) = match c with Lt -> "Lt" | Eq -> "Eq" | Gt -> "Gt"
+let pfeed (l : n list) = if l = [] then "-" else String.concat "" (List.map (fun x -> Printf.sprintf "%02x" (ni x)) l)
+
+let op_textpair (a : byte list) (b : byte list) : string =
+  if not (valid_utf8 a && valid_utf8 b) then "nonutf8" else
+  let ha = name_from_str Heap a and ia = name_from_str Inline a in
+  let hb = name_from_str Heap b and ib = name_from_str Inline b in
+  List.iter abn [ha; ia; hb; ib];
+  let eqs = (match ha, ia with
+      | Ok ta, Ok ti -> Printf.sprintf "EQS=%b,%b" (name_eq_str ta b) (name_eq_str ti b)
+      | _ -> "EQS=-") in
+  let rest = (match ha, ia, hb, ib with
+      | Ok ta, Ok tia, Ok tb, Ok tib ->
+        Printf.sprintf "EQ=%b,%b,%b,%b CMP=%s,%s,%s,%s HF=%s,%s,%s,%s CONV=%s,%s,%s,%s"
+          (name_eq ta tb) (name_eq tia tib) (name_eq tia tb) (name_eq tia tb)
+          (pcmp (name_cmp ta tb)) (pcmp (name_cmp tia tib)) (pcmp (name_cmp ta tb)) (pcmp (name_cmp tia tib))
+          (pfeed (name_hash_feed ta)) (pfeed (name_hash_feed tia)) (pfeed (name_hash_feed tb)) (pfeed (name_hash_feed tib))
+          (hex ta) (hex tia) (hex tia) (hex ta)
+      | _ -> "PAIR=-") in
+  eqs ^ " " ^ rest
+
+let rec rep (x : 'a) (k : int) : 'a list = if k <= 0 then [] else x :: rep x (k - 1)
+let rec take k l = if k <= 0 then [] else match l with [] -> [] | x :: t -> x :: take (k - 1) t
+let rec drop k l = if k <= 0 then l else match l with [] -> [] | _ :: t -> drop (k - 1) t
+
+let op_wname (name : byte list) (cap : int) : string =
+  let w = { wbuf = rep byte_tab.(0xAA) cap; wpos = N0 } in
+  let r = write_name w name in abn r;
+  match r with
+  | Ok (w', len) ->
+    let n = ni len in
+    let wire = take n w'.wbuf in
+    let rt = (let rr = read_name wire Inline (c_with_pos wire N0) in abn rr;
+              pres rr (fun (t, c') -> hex t ^ ":" ^ string_of_int (ni c'.pos))) in
+    let untouched = List.for_all (fun b -> int_of_byte b = 0xAA) (drop n w'.wbuf) in
+    Printf.sprintf "ok:%d:%s RT=%s REST=%b" n (hex wire) rt untouched
+  | r -> pres r (fun _ -> "")
+
+let op_query (a : string array) : string =
+  let cap = int_of_string a.(0) in
+  let name = unhex a.(1) in
+  if not (valid_utf8 name) then "nonutf8" else
+  let opt = if a.(5) = "-" then None else
+      (match String.split_on_char ':' a.(5) with
+       | [v; p] -> Some (n_of_int (int_of_string v), n_of_int (int_of_string p)) | _ -> None) in
+  let r = query_write (rep byte_tab.(0) cap) N0 name (n_of_int (int_of_string a.(2))) (n_of_int (int_of_string a.(3)))
+      (a.(4) = "1") opt in
+  abn r;
+  pres r (fun (b, n) -> Printf.sprintf "%d:%s" (ni n) (hex (take (ni n) b)))
+
 (* spec side of the names stream: the code-blind RFC expansion (Spec/WireName.v) *)
 let spec_name_line (msg : byte list) (p : int) : string =
   match spec_name msg (n_of_int p) with
@@ -221,6 +294,10 @@ let dispatch (op : string) (a : string array) : string =
   match op with
   | "name" -> op_name (unhex a.(0)) (int_of_string a.(1))
   | "script" -> op_script a
+  | "text" -> op_text (unhex a.(0))
+  | "textpair" -> op_textpair (unhex a.(0)) (unhex a.(1))
+  | "wname" -> op_wname (unhex a.(0)) (int_of_string a.(1))
+  | "query" -> op_query a
   | "iter" -> op_iter (unhex a.(0))
   | "rrset" -> op_rrset (int_of_string a.(0)) (unhex a.(1))
   | _ -> "BADOP(" ^ op ^ ")"
@@ -228,6 +305,12 @@ let dispatch (op : string) (a : string array) : string =
 let spec (op : string) (a : string array) : string option =
   match op with
   | "name" -> Some (spec_name_line (unhex a.(0)) (int_of_string a.(1)))
+  | "query" ->
+    let s = unhex a.(1) in
+    Some (Printf.sprintf "valid %d" (if valid_text s then 1 else 0))
+  | "text" | "wname" ->
+    let s = unhex a.(0) in
+    Some (Printf.sprintf "valid %d %s %d" (if valid_text s then 1 else 0) (hex (canon_text s)) (ni (wire_len (text_labels s))))
   | _ -> None
 
 let () =
